@@ -392,12 +392,34 @@ def _flow_local(body, l, seen, depth):
             s = x
             rv = s["rv"]
             tgt = s["p"]
+            src_proj = (rv.get("op") or {}).get("p", {}).get("proj") or [] if rv["k"] == "use" else []
+            variants = [p.get("v") or p.get("downcast") for p in src_proj if isinstance(p, dict) and ("v" in p or "downcast" in p)]
+            if rv["k"] == "use" and any(v in ("Ok", "Continue", "Some") for v in variants):
+                continue   # the success payload is taken out: not part of what happens to a failure
+            if rv["k"] == "use" and any(v in ("Err", "Break") for v in variants) and not tgt.get("proj"):
+                # the error payload is taken out (hand-written `match`): follow the error value; wrapping it in another error is
+                # how it is passed on
+                sub = _flow_local(body, tgt["l"], seen, depth + 1)
+                out += [(k_, d_) for k_, d_ in sub if k_ != "wrapped"]
+                continue
             if rv["k"] == "use" and not tgt.get("proj"):
                 out += _flow_local(body, tgt["l"], seen, depth + 1)
+            elif rv["k"] == "discr" and body.local_ty(l).startswith(("std::task::Poll<", "core::task::Poll<")):
+                continue   # the readiness test of an await, not an inspection of the awaited Result
             elif rv["k"] == "discr":
-                out.append(("matched", bb))
+                mp = _match_propagates(body, l, bb, tgt)
+                if mp is None:
+                    out.append(("matched", bb))
+                elif mp == 0:
+                    out.append(("propagated", bb))
+                else:
+                    # propagated by hand into the return place of an inlined callee: what the caller does with that decides
+                    sub = _flow_local(body, mp, seen, depth + 1)
+                    out += sub if sub else [("swallowed", "result of an inlined function dropped")]
             elif rv["k"] in ("ref",) and not tgt.get("proj"):
                 out += _flow_local(body, tgt["l"], seen, depth + 1)
+            elif rv["k"] == "aggregate" and not tgt.get("proj") and rv.get("adt", "").endswith("task::Poll") and rv.get("variant") == "Ready":
+                out += _flow_local(body, tgt["l"], seen, depth + 1)   # Poll::Ready(x) of an inlined await: transparent
             elif rv["k"] == "aggregate" and not tgt.get("proj"):
                 out += [("wrapped", bb)] + _flow_local(body, tgt["l"], seen, depth + 1)
             elif rv["k"] == "use" and tgt.get("proj"):
@@ -432,18 +454,65 @@ def _flow_local(body, l, seen, depth):
     return out
 
 
+def _match_propagates(body, res_local, bb, discr_place):
+    """`match r { Ok(..) => .., Err(e) => return Err(f(e)) }` written by hand: the discriminant of result local `res_local` is read
+    in block bb into discr_place and switched on; when every return-place assignment reachable from the Err arm (and not from
+    the Ok arm's entry) is an `Err(..)` aggregate of one return place, that return place (0, or an inlined callee's) is
+    returned; else None."""
+    if discr_place.get("proj"):
+        return None
+    sw = None
+    home = None
+    for x in sorted(body.reachable_from(bb)):
+        t = body.term(x)
+        if t.get("k") == "switch" and t["discr"].get("k") in ("copy", "move") and t["discr"]["p"]["l"] == discr_place["l"]:
+            sw = t
+            home = body.blocks[x].get("from")   # the (inlined) function the match belongs to
+            break
+    if sw is None:
+        return None
+    ok_arm = [b2 for v, b2 in sw["targets"] if v == 0]
+    err_arm = [b2 for v, b2 in sw["targets"] if v == 1]
+    if not err_arm:
+        err_arm = [sw["otherwise"]] if ok_arm else []
+    if not ok_arm:
+        ok_arm = [sw["otherwise"]] if err_arm else []
+    if not err_arm or not ok_arm:
+        return None
+    region = body.reachable_from(err_arm[0], avoid=ok_arm)
+    rets = set()
+    for x in region:
+        if body.blocks[x].get("from") != home:
+            continue   # past the return of the inlined function: the caller's business (followed through the return place)
+        for st in body.blocks[x]["stmts"]:
+            if st["k"] == "assign" and not st["p"].get("proj") and (st["p"]["l"] == 0 or body.locals[st["p"]["l"]].get("inl_ret")):
+                rv = st["rv"]
+                if rv["k"] == "aggregate" and rv.get("variant") == "Err":
+                    # the error must be (built from) the payload of the matched result
+                    rets.add(st["p"]["l"])
+                else:
+                    return None
+    if len(rets) != 1:
+        return None
+    return rets.pop()
+
+
 def _try_dest(body, bb, t):
     """The local that receives `from_residual(..)` on the Break arm of this Try::branch (0 = the function's return place)."""
     cont, brk = try_arms(body, bb, t)
     if brk is None:
         return None
-    for x in body.reachable_from(brk):
-        tt = body.term(x)
+    # follow the Break arm in control-flow order up to its from_residual call (no branching in between)
+    cur, seen = brk, set()
+    while cur is not None and cur not in seen:
+        seen.add(cur)
+        tt = body.term(cur)
         if tt.get("k") == "call" and (Body.callee_decl(tt) or "").endswith("FromResidual::from_residual"):
-            if not tt["dest"].get("proj"):
-                return tt["dest"]["l"]
+            return tt["dest"]["l"] if not tt["dest"].get("proj") else None
         if tt.get("k") == "switch":
-            break
+            return None
+        nxt = body.succ[cur]
+        cur = nxt[0] if len(nxt) == 1 else None
     return None
 
 
